@@ -31,6 +31,11 @@ impl MultiHandle {
     fn mark_zombie(&mut self, index: usize)
         ensures final(self).hidden() == old(self).hidden(), final(self).ops() == old(self).ops()
     { unimplemented!() }
+    #[verifier::external_body]
+    fn suspend<F: FnOnce() -> R, R>(&mut self, f: F, now: Instant) -> (r: R)
+        requires f.requires(())
+        ensures f.ensures((), r), final(self).hidden() == old(self).hidden(), old(self).hidden() ==> final(self).ops() == old(self).ops()
+    { unimplemented!() }
 }
 """
 
@@ -463,6 +468,12 @@ fn opt_allow(rl: &mut Option<RateLimiter>, now: Instant) -> (res: bool)
                      Rw("R2", r"state\.write\(\)\.unwrap\(\)\.mark_zombie\(\*idx\)", "state.mark_zombie(*idx)")],
            ensures=[("own-untouched", "!(old(self).kind is Multi) ==> *final(self) == *old(self)"),
                     ("same-kind", "final(self).same_kind(*old(self)) && final(self).ops() == old(self).ops() && (old(self).wf2() ==> final(self).wf2())")]),
+        Fn("src/draw_target.rs", "ProgressDrawTarget", "disconnect", sig_rewrites=[K.SELF_MUT],
+           rewrites=[Rw("R2", r"match self\.kind \{", "match &mut self.kind {"),
+                     Rw("R2", r"TargetKind::Multi \{ idx, ref state, \.\. \}", "TargetKind::Multi { idx, state, .. }"),
+                     Rw("R2", r"let state = state\.write\(\)\.unwrap\(\);", "let state = state; let idx = *idx;")],
+           ensures=[("own-untouched", "!(old(self).kind is Multi) ==> *final(self) == *old(self)"),
+                    ("C06-C18-disconnect", "final(self).same_kind(*old(self)) && (old(self).hidden() ==> final(self).ops() == old(self).ops())", ["C06", "C18"])]),
         Fn("src/state.rs", "BarState", "println", requires=K.BAR_REQ,
            rewrites=[Rw("R5", r"msg\.lines\(\)\.map\(\|l\| LineType::Text\(Into::into\(l\)\)\)\.collect\(\)", "text_lines(msg)"),
                      Rw("R16", r"draw_state\.lines\.push", "draw_state.state.lines.push"),
@@ -518,6 +529,63 @@ fn opt_allow(rl: &mut Option<RateLimiter>, now: Instant) -> (res: bool)
                     ("C03-C06-println-effect",
                      "drew(old(self).draw_target, final(self).draw_target, true, now, "
                      "(if text_lines_of(msg@).len() == 0 { seq![LineType::Empty] } else { text_lines_of(msg@) }) + frame_of(*old(self)))")]),
+        Fn("src/draw_target.rs", "ProgressDrawTarget", "remote", ret="r",
+           sig_rewrites=[K.SELF_MUT, Rw("R2", r"Option<\(&Arc<RwLock<MultiState>>, usize\)>", "Option<(&mut MultiHandle, usize)>")],
+           rewrites=[Rw("R2", r"match &self\.kind", "match &mut self.kind")],
+           ensures=[("multi", "old(self).kind matches TargetKind::Multi { state: s0, idx: i0 } ==> (r matches Some(p) && *p.0 == s0 && p.1 == i0 "
+                              "&& (final(self).kind matches TargetKind::Multi { state: s1, idx: i1 } && s1 == *final(p.0) && i1 == i0))"),
+                    ("own", "!(old(self).kind is Multi) ==> r is None && *final(self) == *old(self)")]),
+        Fn("src/state.rs", "BarState", "suspend", ret="r",
+           sig_rewrites=[Rw("R5", r"<F: FnOnce\(\) -> R, R>", "<F: FnOnce() -> R, R>")],
+           rewrites=[Rw("R2", r"state\.write\(\)\.unwrap\(\)\.suspend\(f, now\)", "state.suspend(f, now)")],
+           requires=K.BAR_REQ + [("callback", "f.requires(())")],
+           proofs=[(r"if let Some\(drawable\) = self\.draw_target\.drawable\(", "before", "        let ghost a = self.draw_target;"),
+                   (r"(?m)^\s*let _ = drawable\.clear\(\);\s*$", "at", """
+            let ghost dsnap = drawable;
+            let __r = drawable.clear();
+            proof {
+                let b = self.draw_target;
+                let want = Seq::<LineType>::empty();
+                match dsnap {
+                    Drawable::Term { term: t, last_line_count: l, draw_state: d } => {
+                        let x = a.own().unwrap(); let y = b.own().unwrap();
+                        assert(x.0 == t@ && x.1 == *l);
+                        assert(y.0 == final(t)@ && y.1 == *final(l) && y.2 == *final(d) && x.2 == *d);
+                        let e = choose|e: DrawState| e.lines@.len() == 0 && e.move_cursor == d.move_cursor && e.alignment == d.alignment && #[trigger] dtt_post(e, *final(d), t@, final(t)@, *l, *final(l), __r);
+                        assert(e.lines@ =~= want);
+                        assert(req_case(a, b, true, now, want, __r, true, x, y));
+                    }
+                    Drawable::TermLike { term_like: t, last_line_count: l, draw_state: d } => {
+                        let x = a.own().unwrap(); let y = b.own().unwrap();
+                        assert(x.0 == t@ && x.1 == *l);
+                        assert(y.0 == final(t)@ && y.1 == *final(l) && y.2 == *final(d) && x.2 == *d);
+                        let e = choose|e: DrawState| e.lines@.len() == 0 && e.move_cursor == d.move_cursor && e.alignment == d.alignment && #[trigger] dtt_post(e, *final(d), t@, final(t)@, *l, *final(l), __r);
+                        assert(e.lines@ =~= want);
+                        assert(req_case(a, b, true, now, want, __r, true, x, y));
+                    }
+                    _ => {}
+                }
+                assert(draw_effect(a, b, true, now, want, __r));
+                lemma_drew(a, b, true, now, want, __r);
+            }
+"""),
+                   (r"let ret = f\(\);", "before", """        let ghost m = self.draw_target;
+        proof {
+            assert(a == old(self).draw_target);
+            if a.own() is None { assert(m == a); assert(draw_effect(a, m, true, now, Seq::<LineType>::empty(), Ok(()))); }
+            assert(drew(a, m, true, now, Seq::<LineType>::empty()));
+        }"""),
+                   (r"(?m)^\s*let _ = self\.draw\(true, Instant::now\(\)\);\s*$", "at", """
+        let __t2 = Instant::now();
+        let __r2 = self.draw(true, __t2);
+        proof { lemma_drew(m, self.draw_target, true, __t2, frame_of(*self), __r2); }
+""")],
+           ensures=[K.BAR_WF_POST, ("frame-rest", "rest_same(*old(self), *final(self))"),
+                    ("C03-C18-callback-runs-once", "f.ensures((), r)"),
+                    ("C06-suspend-silent-when-hidden", "final(self).draw_target.same_kind(old(self).draw_target) && (old(self).draw_target.hidden() ==> final(self).draw_target.ops() == old(self).draw_target.ops())"),
+                    ("C01-C03-suspend-clears-then-redraws",
+                     "!(old(self).draw_target.kind is Multi) ==> exists|m: ProgressDrawTarget, t2: Instant| "
+                     "#[trigger] drew(old(self).draw_target, m, true, now, Seq::<LineType>::empty()) && #[trigger] drew(m, final(self).draw_target, true, t2, frame_of(*final(self)))")]),
         Fn("src/state.rs", "Drop for BarState", "drop", rename="drop_impl",
            rewrites=[Rw("R5", r"self\.on_finish\.clone\(\)", "clone_finish(&self.on_finish)")],
            requires=[("target-wf", "old(self).draw_target.wf2()")],
